@@ -474,8 +474,10 @@ def comments_rule(ctx, rule):
         return
     rep.analysed(fn)
     RET = {"copy": {"l": 0, "p": []}}
-    srcs = [(d, p) for d, p in origins(fn, RET)]
-    calls = sorted({d[1] for d, p in srcs if d[0] == "call"})
+    from .c03 import kind_deep
+    srcs = [(d, p) for d, p in kind_deep(fn, RET)]
+    # the calls the returned Option can come from, looking through Some(..) and `?`
+    calls = sorted({d[1] for d, p in srcs if d[0] == "call" and fn.term(d[1])["callee"].get("name") not in ("branch", "is_comment")})
     n = 0
     for cb in calls:
         t = fn.term(cb)
@@ -500,8 +502,8 @@ def comments_rule(ctx, rule):
             rep.ob(rule, "returned-token-not-a-comment::%s" % nm, ok, why, fn.loc(t["line"]), how="%s(|t| !t.is_comment())" % nm)
         elif nm in ("next", "next_back"):
             # explicit form: wherever this token is what is returned, is_comment() of it was false (or it is the end of input)
-            ics = [bi for bi, ct in fn.calls() if ct["callee"].get("name") == "is_comment" and ct["args"] and any(d[0] == "call" and d[1] == cb for d, _ in origins(fn, ct["args"][0]))]
-            assign_blocks = [bi for bi, si, st in fn.assigns() if st["pl"]["l"] == 0 and any(d[0] == "call" and d[1] == cb for o in ([st["rv"]["use"]] if "use" in st["rv"] else st["rv"].get("ops", [])) for d, _ in origins(fn, o))]
+            ics = [bi for bi, ct in fn.calls() if ct["callee"].get("name") == "is_comment" and ct["args"] and any(d[0] == "call" and d[1] == cb for d, _ in kind_deep(fn, ct["args"][0]))]
+            assign_blocks = [bi for bi, si, st in fn.assigns() if st["pl"]["l"] == 0 and any(d[0] == "call" and d[1] == cb for o in ([st["rv"]["use"]] if "use" in st["rv"] else st["rv"].get("ops", [])) for d, _ in kind_deep(fn, o))]
             if t["dest"]["l"] == 0:
                 assign_blocks.append(cb)
             # allowed ways from the call to a block that returns its token: the false edge of is_comment() on it, the None edge
@@ -512,9 +514,12 @@ def comments_rule(ctx, rule):
                     allowed.add((be[0], be[1]))
             for sb in range(len(fn.blocks)):
                 sw = tables.arms_complete(fn, sb)
-                if sw and sw[1].peel_refs().adt() == "std::option::Option" and "None" in sw[2] and sw[2].get("Some") != sw[2]["None"] \
-                        and any(d[0] == "call" and d[1] == cb for d, _ in origins(fn, {"copy": {"l": sw[0]["l"], "p": []}})):
+                if not sw or not any(d[0] == "call" and d[1] == cb for d, _ in kind_deep(fn, {"copy": {"l": sw[0]["l"], "p": []}})):
+                    continue
+                if sw[1].peel_refs().adt() == "std::option::Option" and "None" in sw[2] and sw[2].get("Some") != sw[2]["None"]:
                     allowed.add((sb, sw[2]["None"]))
+                if sw[1].peel_refs().adt() == "std::ops::ControlFlow" and "Break" in sw[2] and sw[2].get("Continue") != sw[2]["Break"]:
+                    allowed.add((sb, sw[2]["Break"]))
             # reachability from the call without using an allowed edge
             seen, st_ = set(), [cb]
             while st_:
@@ -529,6 +534,9 @@ def comments_rule(ctx, rule):
             rep.ob(rule, "returned-token-not-a-comment::next@%d" % calls.index(cb), ok,
                    "" if ok else "a token drawn from the underlying lexer (line %s) can be returned without having been tested with is_comment(): a second comment in a row reaches the parser" % t["line"],
                    fn.loc(t["line"]), how="returned only on the false edge of is_comment() or at end of input")
+        elif nm in ("from_residual", "from_output") or (callee_def(t) or "").startswith("std::ops::"):
+            # `self.lexer.next()?` : the end of input handed on
+            n -= 1
         else:
             rep.ob(rule, "returned-token-not-a-comment::%s" % nm, False, "the returned token comes from %s: cannot show that it is not a comment" % (callee_def(t) or nm), fn.loc(t["line"]))
     rep.floor(rule, n, 1, "sources of the returned token")
